@@ -239,7 +239,7 @@ func init() {
 	H("Preload", func(fr *frame, args []value) value {
 		p := fr.i.path
 		d := unbox(args[1], "*badger.DB").(*kvDB)
-		w := []kvWrite{{key: keyBytes(args[2]), val: cloneBytes(args[3])}}
+		w := []kvWrite{mkWrite(keyBytes(args[2]), cloneBytes(args[3]), false)}
 		d.disk.version++
 		d.disk.ents = p.applyWritesV(d.disk.ents, w, d.disk.version)
 		p.env.effects = append(p.env.effects, effect{kind: "kv", disk: d.disk, writes: w})
@@ -263,7 +263,7 @@ func init() {
 			}
 			var ws []kvWrite
 			for _, e := range bp.ents {
-				ws = append(ws, kvWrite{key: e.key, val: e.val})
+				ws = append(ws, mkWrite(e.key, e.val, false))
 			}
 			d.version++
 			d.ents = p.applyWritesV(d.ents, ws, d.version)
